@@ -1259,7 +1259,14 @@ func: TOK_FUNC TOK_ID error
     print_error_msg(line_no, "error in function %s defined", $2);
     free($2);
     
-    yyclearin;
+    if (yychar != 0) /* the end of input stays: the scanner cannot be asked again */
+    {
+        if (yychar == TOK_ID || yychar == TOK_NUM_STRING)
+        {
+            free(yylval.val.str_value);
+        }
+        yyclearin;
+    }
     yyerrok;
     $$ = NULL;
 };
